@@ -1333,6 +1333,32 @@ pub fn run_c12(run: &mut Run) {
         let pkt = forge_request(requester, responder, iid, d, cmd, &data);
         one12(acc, &spec12(responder, s), &pkt, i);
     });
+    // (b') header bytes the responder must not let steer its answer: SMBus destination, command and
+    // count bytes, the destination EID, the flags byte and the control header byte of each request take
+    // all 256 values (PEC re-computed), on every responder state -- among them the values that
+    // coincide with the responder's own address, its assigned EID and the requester
+    {
+        let positions = [0usize, 1, 2, 5, 7, 9];
+        run.sweep("8 kinds x 6 request header positions x 256 values x 3 states x 2 address pairs", 8 * 6 * 256 * 3 * 2, |acc, i| {
+            let mut ix = Ix(i);
+            let (requester, responder) = [(0x10u8, 0x23u8), (0x23, 0x10)][ix.take(2) as usize];
+            let s = ix.take(3) as usize;
+            let val = ix.take(256) as u8;
+            let pos = positions[ix.take(6) as usize];
+            let k = ix.take(8);
+            let (cmd, data) = answerable(k, if k == 5 { 0xFF } else if k == 7 { 0 } else { 0x5A });
+            let mut pkt = forge_request(requester, responder, 0, false, cmd, &data);
+            pkt[pos] = val;
+            fix_pec(&mut pkt);
+            // only requests the reference accepts and answers are C12's; the rest is C09's / C10's
+            let rd = ref_decode(&pkt);
+            if rd.class != Class::Accept || !rd.is_request {
+                acc.evals += 1;
+                return;
+            }
+            one12(acc, &spec12(responder, s), &pkt, i);
+        });
+    }
     c12_histories(run);
     c12_list_lengths(run);
     c12_set_eid_pairs(run);
